@@ -54,12 +54,52 @@ Proof.
   split; [apply inner_raised_checked; apply assign_failed_inner | apply assign_failed_no_csv].
 Qed.
 
+(* a projection, by definition of failed_trace_ok (= prop_trace_ok && ...): kept only because the
+   harness evaluates both predicates on observed traces *)
 Lemma failed_implies_prop : forall c tr raised,
   failed_trace_ok c tr raised = true -> prop_trace_ok c tr raised = true.
 Proof.
   intros c tr raised H. unfold failed_trace_ok in H.
   do 6 (apply andb_true_iff in H; destruct H as [H _]). exact H.
 Qed.
+
+(* what has content: wherever _run_mapping raises, the trace of the MODEL satisfies the executable
+   statement of the property's clauses (the predicate the harness evaluates on the effects observed
+   on the real run_mapping) -- a finite check, 256 configurations x 6 fail points *)
+Lemma failed_run_has_property : forall c fail,
+  snd (inner c fail) = None ->
+  prop_trace_ok c (fst (run_mapping c fail)) (snd (run_mapping c fail)) = true.
+Proof.
+  intros [[] [] [] [] [] [] [] []] [[]|]; vm_compute; intros H; try reflexivity; discriminate H.
+Qed.
+
+(* a run that fails at or before the assignment (in particular: a failing worker of the
+   assignment pool) never reaches the steps that touch the query file (AppendObsm, tag 8) or
+   write the summary (WriteSummary, tag 9) *)
+Lemma early_failure_no_obsm : forall c fail,
+  (fail = Some PCopy \/ fail = Some PMarkerCache \/ fail = Some PAssign) ->
+  has_eff 8 (fst (run_mapping c fail)) = false /\ has_eff 9 (fst (run_mapping c fail)) = false.
+Proof.
+  intros [[] [] [] [] [] [] [] []] fail [-> | [-> | ->]]; vm_compute; split; reflexivity.
+Qed.
+
+Theorem failed_run_leaves_query_untouched : forall (c : cfg) (W : world) (n k : nat),
+  (1 <= n)%nat -> (exists w, (w < k)%nat /\ code W w <> 0%Z) ->
+  let tr := fst (run_mapping c (assign_fail (stage_result false W n k))) in
+  has_eff 8 tr = false /\ has_eff 9 tr = false /\ has_eff 7 tr = false /\ has_eff 11 tr = false.
+Proof.
+  intros c W n k Hn Hex tr.
+  destruct (pool_raises false W n k Hn) as (_ & _ & _ & Hr).
+  destruct (Hr Hex) as (w & cd & Hw). subst tr. rewrite Hw. cbn [assign_fail].
+  destruct c as [[] [] [] [] [] [] [] []]; vm_compute; repeat split; reflexivity.
+Qed.
+
+(* for contrast: a clean run with obsm requested does reach AppendObsm *)
+Example clean_run_appends_obsm :
+  has_eff 8 (fst (run_mapping {| has_tmp := true; has_csv := true; has_obsm := true; has_summary := true;
+                                 has_log_path := true; has_json := true; has_hdf5 := true;
+                                 has_gene_map := false |} None)) = true.
+Proof. vm_compute. reflexivity. Qed.
 
 (* readable consequences of failed_run_ok *)
 Lemma failed_run_unfold : forall c fail, failed_run_ok c fail = true ->
